@@ -118,12 +118,30 @@ func report(e *Engine, results []*funcResult, prop, tier, outDir string, verbose
 		}
 		failed = append(failed, r.Failed...)
 		if verbose {
+			for _, o := range r.Obligs {
+				if o.Solver != "z3-new(incremental)" && o.Solver != "" {
+					fmt.Printf("    raced: %s -> %s via %s in %dms\n", o.Name, o.Result, o.Solver, o.Ms)
+				}
+			}
 			fmt.Printf("  %-40s obligations=%d failed=%d paths=%d iter=%d %.2fs\n", r.Name, len(r.Obligs), len(r.Failed), func() int {
 				if r.VC != nil {
 					return r.VC.paths
 				}
 				return 0
 			}(), r.Iter, r.Secs)
+		}
+	}
+	if dump != "" {
+		for _, r := range results {
+			if r == nil || r.VC == nil {
+				continue
+			}
+			for i, o := range r.Obligs {
+				if o.Kind == "cover" {
+					os.MkdirAll(dump, 0o755)
+					os.WriteFile(filepath.Join(dump, fmt.Sprintf("cover-%s-%d.smt2", sanitize(o.Name), i)), []byte(singleScript(r.VC.w.prelude(), r.VC.decls, o, false, false)), 0o644)
+				}
+			}
 		}
 	}
 	// group failures by name
